@@ -504,8 +504,8 @@ def run(ctx):
         check_catchall(ctx.ev, fails, d)
     for f in fails.values():
         ctx.fail(f)
-    n = ctx.pick(10, 1500)
-    ctx.pmap(shard, [(ctx.shard_seed(i), n, ctx.pick(20, 1500)) for i in range(16)])
+    n = ctx.pick(40, 1500)
+    ctx.pmap(shard, [(ctx.shard_seed(i), n, ctx.pick(60, 1500)) for i in range(16)])
 
 
 def classify(f):
